@@ -4,6 +4,7 @@
   bounds, every constraint with its sense, the objective with its constant, in the user's
   orientation) — not merely of the extracted matrices.
 -/
+import Optyx.Props.Glue
 import Optyx.Lemmas.LPEndToEnd
 
 namespace Optyx.Props.C08
